@@ -40,6 +40,16 @@ MANIFEST_ENTRY = {
 
 STATS = {"calls": 0, "calls_spanning_a_flip": 0, "resolved_after_a_flip_inside_call": 0}
 APIS = ["scan", "scan_parallel", "scan_noverify", "scan_batches", "iter_records", "row_count"]
+FILTERED_APIS = list(P.FILTERED_READ_APIS)      # the same APIs called with a filter every row satisfies (schema resolution, pruning)
+ALL_APIS = APIS + FILTERED_APIS
+
+# writers racing a reader on a table that is EMPTY (no current snapshot) when the read starts, or becomes empty meanwhile
+EMPTY_SETS = [
+    (0, [{"kind": "append", "rows": [{"x": 100}]}]),
+    (0, [{"kind": "multi_append", "batches": [[{"x": 100}], [{"x": 101}]]}]),
+    (1, [{"kind": "delete_snapshot", "which": "current"}, {"kind": "append", "rows": [{"x": 100}]}]),
+    (0, [{"kind": "append", "rows": [{"x": 100}]}, {"kind": "append", "rows": [{"x": 200}]}]),
+]
 
 
 def reader_filter(op: str, path: str, phase: tuple) -> bool:
@@ -258,6 +268,11 @@ def analyse(case: Dict[str, Any], res: P.CaseResult, readers: List[int]) -> Tupl
             # model prediction: exactly the version current at the single pointer resolution
             if faulted and call.get("extra_ptr_reads"):
                 pass        # a fault made the API resolve the pointer again: judged by the oracle above only
+            elif call.get("extra_ptr_reads"):
+                # Model/Reader.v: ONE pointer resolution per read call (GenReadRes.v: read_api_resolutions); emptiness, file
+                # list and schema all come from that one metadata object
+                bad.append({"case": c01._case_json(case), "schedule": res.schedule, "api": call["api"], "ptr_index": call["ptr"],
+                            "pointer_reads_in_call": 1 + call["extra_ptr_reads"], "model_predicts": "exactly one pointer resolution per read call"})
             elif call["ptr"] is None or want(call["ptr"]) != call["result"]:
                 bad.append({"case": c01._case_json(case), "schedule": res.schedule, "api": call["api"], "ptr_index": call["ptr"],
                             "result": call["result"], "model_predicts": want(call["ptr"]) if call["ptr"] is not None else None})
@@ -305,11 +320,56 @@ def run(ctx) -> None:
     total = 0
     bad_all: List[Dict[str, Any]] = []
     api_seen: Dict[str, int] = {}
+    import time as _time
+    t_sec = _time.time()
+    sec_s: Dict[str, float] = {}
+    # readers on a table that has NO current snapshot when the read starts (a fresh table racing its FIRST commit; a table
+    # whose only snapshot is being deleted while an append follows): every API, with and without filter; whole commits
+    # between every two consecutive storage operations of the reader + bounded-preemption enumeration
+    for ei, (nsnap, writers) in enumerate(EMPTY_SETS):
+        for ai, api in enumerate(ALL_APIS):
+            if quick and ei >= 1 and (ei + ai) % 4 != 0:
+                continue
+            ops = writers + [{"kind": "read", "apis": [api, ALL_APIS[(ai + 3) % len(ALL_APIS)]]}]
+            case = {"ops": ops, "clock": "tick", "topology": "separate", "yield_filter": reader_filter, "track_states": True,
+                    "initial_snapshots": nsnap}
+            rname = f"A{len(writers)}"
+            wnames = [f"A{i}" for i in range(len(writers))]
+            probe = P.run_case(ctx.scratch, c01._fix_case(case), between_steps_chooser(rname, 10**6, wnames), tag="c02e")
+            nr = sum(1 for a in probe.schedule if a == rname)
+            rs = list(range(1, nr + 1))
+            if quick:
+                # the first call's steps (the table is empty: few storage operations) all; a sample of the second call's
+                first_call = 0
+                for e in probe.log:
+                    if e["actor"] == rname:
+                        first_call += 1
+                        if e["op"] == "ReadEnd":
+                            break
+                head = min(first_call + 1, 16)      # logged operations of the first call >= its scheduler steps
+                rs = rs[:head] + sorted(ctx.rng.sample(rs[head:], min(2, len(rs[head:]))))
+            eruns = [([("between", rname, r, wnames)],
+                      P.run_case(ctx.scratch, c01._fix_case(case), between_steps_chooser(rname, r, wnames), tag="c02e"))
+                     for r in rs]
+            if not quick or ai % 2 == ei % 2:
+                eruns += list(c01.explore(ctx, case, 2, 3 if quick else 120))
+            for dev, res in eruns:
+                total += 1
+                ctx.count(1, ("empty", ei, api, tuple(res.schedule)))
+                api_seen[api] = api_seen.get(api, 0) + 1
+                viol, bad = analyse(case, res, [len(writers)])
+                for v in viol:
+                    ctx.violation(f"reader-empty-table:{api}", v, {"case": c01._case_json(case), "deviations": list(dev), "schedule": res.schedule})
+                bad_all.extend(bad)
+    sec_s["empty_table"] = round(_time.time() - t_sec, 1)
+    t_sec = _time.time()
     for wi, writers in enumerate(WRITER_SETS if not quick else WRITER_SETS[:6]):
-        for ai, api in enumerate(APIS):
+        for ai, api in enumerate(ALL_APIS):
             if quick and (wi + ai) % 2 == 1:
                 continue
-            reader_ops = [{"kind": "read", "apis": [api, APIS[(ai + 1) % len(APIS)]]}]
+            if quick and api in FILTERED_APIS and (wi + ai) % 4 != 0:
+                continue
+            reader_ops = [{"kind": "read", "apis": [api, ALL_APIS[(ai + 1) % len(ALL_APIS)]]}]
             ops = writers + reader_ops
             case = {"ops": ops, "clock": "tick", "topology": "separate", "yield_filter": reader_filter, "track_states": True,
                     "injectors": {i: (lambda k=op["fault"]: fault_injector(k)) for i, op in enumerate(ops) if op.get("fault")}}
@@ -331,6 +391,8 @@ def run(ctx) -> None:
                     ctx.violation(f"reader:{api}:{'+'.join(o['kind'] for o in writers)}", v,
                                   {"case": c01._case_json(case), "deviations": list(dev), "schedule": res.schedule})
                 bad_all.extend(bad)
+    sec_s["interleavings"] = round(_time.time() - t_sec, 1)
+    t_sec = _time.time()
     # whole commits between two consecutive storage operations of a reader (both calls of the handle): what a handle
     # keeps between its operations -- a cached pointer, cached metadata -- must not outlive the commit
     bs_sets = [WRITER_SETS[1], WRITER_SETS[0]]
@@ -356,6 +418,8 @@ def run(ctx) -> None:
                     ctx.violation(f"reader-between-steps:{api}", v,
                                   {"case": c01._case_json(case), "deviations": [("between", rname, r, wnames)], "schedule": res.schedule})
                 bad_all.extend(bad)
+    sec_s["between_steps"] = round(_time.time() - t_sec, 1)
+    t_sec = _time.time()
     # a delete+append ("replace") transaction: one commit point; the reader between every two writer steps and after each
     for ai, api in enumerate(APIS):
         if quick and ai % 3 != 1:
@@ -369,6 +433,8 @@ def run(ctx) -> None:
         for v in viol:
             ctx.violation(f"reader-replace-txn:{api}", v, {"case": c01._case_json(case), "deviations": [("alternate", "A0", "A1")], "schedule": res.schedule})
         bad_all.extend(bad)
+    sec_s["replace_txn"] = round(_time.time() - t_sec, 1)
+    t_sec = _time.time()
     # two writers on separate handles on a clock that does not advance (every timestamp-derived name and stamp collides unless
     # something else keeps them apart), one reader reading between their steps
     two = [{"kind": "append", "rows": [{"x": 100}]}, {"kind": "multi_append", "batches": [[{"x": 200}], [{"x": 201}]]}]
@@ -396,6 +462,8 @@ def run(ctx) -> None:
                     ctx.violation(f"reader-two-writers-{clock_kind}:{api}", v,
                                   {"case": c01._case_json(case), "deviations": list(dev), "schedule": res.schedule})
                 bad_all.extend(bad)
+    sec_s["two_writers_clock"] = round(_time.time() - t_sec, 1)
+    t_sec = _time.time()
     # object store with conditional writes: the response to the pointer PUT is LOST (applied, then a timeout / 5xx on the
     # way back) or the request fails before it is applied; the reader reads after every storage operation of the writer
     for ai, api in enumerate(APIS):
@@ -419,6 +487,8 @@ def run(ctx) -> None:
                               {"case": c01._case_json(case), "deviations": [("alternate", "A0", "A1")], "schedule": res.schedule})
             # the model comparison (single pointer resolution) applies unchanged
             bad_all.extend(bad)
+    sec_s["s3_lost_response"] = round(_time.time() - t_sec, 1)
+    t_sec = _time.time()
     # faulted readers: one transient failure of the reader's nth read of each class of file while writers commit / fail
     fw_sets = [WRITER_SETS[1], WRITER_SETS[5], WRITER_SETS[0]]
     for wi, writers in enumerate(fw_sets if not quick else fw_sets[:2]):
@@ -452,6 +522,8 @@ def run(ctx) -> None:
                         ctx.violation(f"faulted-reader:{cls}:{api}", v,
                                       {"case": c01._case_json(case), "deviations": list(dev), "schedule": res.schedule})
                     bad_all.extend(bad)
+    sec_s["faulted_readers"] = round(_time.time() - t_sec, 1)
+    t_sec = _time.time()
     # two readers, three writers, random
     for k in range(6 if quick else 120):
         writers = WRITER_SETS[-1]
@@ -465,6 +537,9 @@ def run(ctx) -> None:
         for v in viol:
             ctx.violation("reader:multi", v, {"case": c01._case_json(case), "deviations": [("random", seed)], "schedule": res.schedule})
         bad_all.extend(bad)
+    sec_s["two_readers"] = round(_time.time() - t_sec, 1)
+    t_sec = _time.time()
+    ctx.stats["section_wall_s"] = sec_s
     ctx.stats["schedules"] = total
     ctx.stats["runs_per_api"] = api_seen
     ctx.stats["read_calls"] = dict(STATS)
